@@ -4,7 +4,8 @@ import GoNeat.Driver.Operators
 import GoNeat.Driver.Population
 import GoNeat.Driver.Activations
 import GoNeat.Driver.Solver
+import GoNeat.Driver.History
 
 namespace GoNeat.Driver
-def allOps : List (String × Handler) := geneticsOps ++ operatorOps ++ populationOps ++ activationsOps ++ solverOps
+def allOps : List (String × Handler) := geneticsOps ++ operatorOps ++ populationOps ++ activationsOps ++ solverOps ++ historyOps
 end GoNeat.Driver
